@@ -51,7 +51,7 @@ def render (acks0 : Bool) (outs : List (Nat × PartOut)) : String :=
 
 /-- the handler's produce path for the listed partitions (Model/ProduceGate.produceRequest) -/
 def produce (d : D) (acks0 : Bool) (parts : List (Nat × Bool)) : D × String :=
-  let (l, outs) := produceRequest 0 d.txnFail (envOf d acks0 parts) d.l (parts.map (·.1))
+  let (l, outs) := produceRequest 0 d.txnFail noCancel (envOf d acks0 parts) d.l (parts.map (·.1))
   ({ d with l := l }, render acks0 outs)
 
 /-- start broker 0's Acquire of `r` and stop right after its first lease transaction has executed -/
@@ -75,6 +75,12 @@ def acquireUntilFirstTxn (l : Lease.State) (r : Nat) (fail : Bool) : Lease.State
           else ((Lease.step .byRev l (.step 0 r)).1, none)
         | _ => (l, none)
     go 8 l1
+
+def leaseStr : LeaseRes → String
+  | .nil => "ok"
+  | .notOwner => "notowner"
+  | .shuttingDown => "shutdown"
+  | .other => "err"
 
 def expireAll (l : Lease.State) : Lease.State :=
   (List.range l.nextLease).foldl (fun l x =>
@@ -107,6 +113,17 @@ def stepLine (d : D) (ws : List String) : D × String :=
   | "produce" :: acks :: parts =>
     let (d', txt) := produce d (acks == "0") (parts.filterMap parsePart)
     (d', txt ++ " " ++ obs d')
+  | "tproduce" :: acks :: _timeoutMs :: parts =>
+    -- TimeoutMillis shorter than the etcd round trip: the client's timeout does not bound (or cut short) the lease step;
+    -- every Acquire still runs to completion and its result is what the gate sees
+    let (d', txt) := produce d (acks == "0") (parts.filterMap parsePart)
+    (d', txt ++ " " ++ obs d')
+  | "cacquire" :: _timeoutMs :: parts =>
+    -- AcquireAll with a ctx that is done before the etcd round trips answer; the harness' etcd client finishes a transaction
+    -- it has started, so every Acquire completes: the slots carry the real outcomes (never a left-over nil)
+    let (l, res) := acquireAll 0 d.txnFail noCancel d.l ((parts.filterMap parsePart).map (·.1))
+    let d' := { d with l := l }
+    (d', "res=" ++ joinWith "," (res.map fun x => s!"{x.1}={leaseStr x.2}") ++ " " ++ obs d')
   | "xproduce" :: acks :: parts =>
     -- the session is lost and the loss is first noticed by the `Done()` branch of getOrCreateSession inside this request's
     -- Acquire (of a partition the broker does not own yet), before monitorSession gets the lock: as coded that branch drops
